@@ -9,13 +9,14 @@ From DustDDS Require Import Base.Machine Lang.IdlModel Lang.IdlProofs.
 Open Scope string_scope.
 Open Scope list_scope.
 
-(* ---- the property, for all specifications of the supported subset outside the four recorded
-   classes (1 bounded string/sequence, 2 annotated member with several declarators, 3 array
-   with several dimensions, 4 several #[dust_dds] attributes on one item) *)
+(* ---- the property, for all specifications of the supported subset outside the three recorded
+   classes (1 bounded string/sequence, 3 array with several dimensions, 4 several #[dust_dds]
+   attributes on one item; class 2, annotated member with several declarators, was fixed in /repo
+   by 7270bfe and is retired) *)
 Theorem C41_idl_structure_preserved :
   forall defs,
     supported defs = true ->
-    known_bounds defs = false -> known_multi_annot defs = false ->
+    known_bounds defs = false ->
     known_multi_dim defs = false -> known_split defs = false ->
     exists items, compile_defs defs = Ok items /\ shape_of_items 0 items = shape_of_defs [] defs.
 Proof. exact idl_structure_preserved. Qed.
@@ -28,17 +29,16 @@ Theorem C41_structure_preserved_upto_classes :
     supported defs = true ->
     (known_bounds defs = true -> eb = true) ->
     (known_multi_dim defs = true -> ed = true) ->
-    (known_multi_annot defs = true -> ea = true) ->
     (known_split defs = true -> ea = true) ->
     compile_defs defs = Ok items ->
     map (ev_erase eb ed ea) (shape_of_items 0 items) = map (ev_erase eb ed ea) (shape_of_defs [] defs).
 Proof. exact structure_preserved_upto_classes. Qed.
 
-(* bounds are the only loss when classes 2-4 are absent (D34) *)
+(* bounds are the only loss when classes 3 and 4 are absent (D34) *)
 Theorem C41_everything_but_bounds_preserved :
   forall defs items,
     supported defs = true ->
-    known_multi_annot defs = false -> known_multi_dim defs = false -> known_split defs = false ->
+    known_multi_dim defs = false -> known_split defs = false ->
     compile_defs defs = Ok items ->
     map (ev_erase true false false) (shape_of_items 0 items)
     = map (ev_erase true false false) (shape_of_defs [] defs).
@@ -78,34 +78,34 @@ Theorem C41_union_labels_preserved :
 Proof. exact union_labels_preserved. Qed.
 
 (* member order, keys, member ids, optional members, extensibility / base type / qualified
-   name, enum bit bound: whenever classes 2 and 4 are absent (bounds and dimensions irrelevant) *)
+   name, enum bit bound: whenever class 4 is absent (bounds and dimensions irrelevant) *)
 Theorem C41_member_order_preserved :
   forall defs items, supported defs = true -> compile_defs defs = Ok items ->
-    known_multi_annot defs = false -> known_split defs = false ->
+    known_split defs = false ->
     members_of (shape_of_items 0 items) = members_of (shape_of_defs [] defs).
 Proof. exact members_preserved. Qed.
 
 Theorem C41_keys_preserved :
   forall defs items, supported defs = true -> compile_defs defs = Ok items ->
-    known_multi_annot defs = false -> known_split defs = false ->
+    known_split defs = false ->
     keys_of (shape_of_items 0 items) = keys_of (shape_of_defs [] defs).
 Proof. exact keys_preserved. Qed.
 
 Theorem C41_member_ids_preserved :
   forall defs items, supported defs = true -> compile_defs defs = Ok items ->
-    known_multi_annot defs = false -> known_split defs = false ->
+    known_split defs = false ->
     ids_of (shape_of_items 0 items) = ids_of (shape_of_defs [] defs).
 Proof. exact ids_preserved. Qed.
 
 Theorem C41_optionals_preserved :
   forall defs items, supported defs = true -> compile_defs defs = Ok items ->
-    known_multi_annot defs = false -> known_split defs = false ->
+    known_split defs = false ->
     optionals_of (shape_of_items 0 items) = optionals_of (shape_of_defs [] defs).
 Proof. exact optionals_preserved. Qed.
 
 Theorem C41_extensibility_base_name_preserved :
   forall defs items, supported defs = true -> compile_defs defs = Ok items ->
-    known_multi_annot defs = false -> known_split defs = false ->
+    known_split defs = false ->
     struct_headers_of (shape_of_items 0 items) = struct_headers_of (shape_of_defs [] defs)
     /\ enums_of (shape_of_items 0 items) = enums_of (shape_of_defs [] defs).
 Proof. exact headers_preserved. Qed.
@@ -120,28 +120,31 @@ Theorem C41_unions_aliases_consts_preserved :
     /\ consts_of (shape_of_items 0 items) = consts_of (shape_of_defs [] defs).
 Proof. exact unions_aliases_consts_preserved. Qed.
 
-(* ---- the four classes are genuine: in each there is a supported specification, in no other
+(* ---- the three remaining classes are genuine: in each there is a supported specification, in no other
    class, on which the clause named is violated (recorded findings C41-bounds-dropped,
-   C41-annotation-first-declarator-only, C41-array-dimensions-dropped, C41-split-attributes) *)
+   C41-array-dimensions-dropped, C41-split-attributes) *)
 Theorem C41_bounds_clause_refuted :
   exists defs items,
-    (supported defs = true /\ known_bounds defs = true /\ known_multi_annot defs = false
+    (supported defs = true /\ known_bounds defs = true
      /\ known_multi_dim defs = false /\ known_split defs = false)
     /\ compile_defs defs = Ok items
     /\ member_kinds_of (shape_of_items 0 items) <> member_kinds_of (shape_of_defs [] defs).
 Proof. exact bounds_refuted. Qed.
 
-Theorem C41_keys_refuted_for_multi_declarator_member :
-  exists defs items,
-    (supported defs = true /\ known_bounds defs = false /\ known_multi_annot defs = true
-     /\ known_multi_dim defs = false /\ known_split defs = false)
-    /\ compile_defs defs = Ok items
-    /\ keys_of (shape_of_items 0 items) <> keys_of (shape_of_defs [] defs).
-Proof. exact multi_annot_refuted. Qed.
+(* regression for the retired class 2 (fix 7270bfe): in `struct S { @key long a, b; };` both
+   declarators are keys and the whole structure is preserved *)
+Theorem C41_annotations_reach_every_declarator :
+  exists items,
+    (supported w_multi_annot = true /\ known_bounds w_multi_annot = false
+     /\ known_multi_dim w_multi_annot = false /\ known_split w_multi_annot = false)
+    /\ compile_defs w_multi_annot = Ok items
+    /\ keys_of (shape_of_items 0 items) = [("S", ["a"; "b"])]
+    /\ shape_of_items 0 items = shape_of_defs [] w_multi_annot.
+Proof. exact multi_declarator_annotations_preserved. Qed.
 
 Theorem C41_kinds_refuted_for_multi_dim_array :
   exists defs items,
-    (supported defs = true /\ known_bounds defs = false /\ known_multi_annot defs = false
+    (supported defs = true /\ known_bounds defs = false
      /\ known_multi_dim defs = true /\ known_split defs = false)
     /\ compile_defs defs = Ok items
     /\ member_kinds_of (shape_of_items 0 items) <> member_kinds_of (shape_of_defs [] defs).
@@ -149,7 +152,7 @@ Proof. exact multi_dim_refuted. Qed.
 
 Theorem C41_keys_and_names_refuted_for_split_attributes :
   exists defs items,
-    (supported defs = true /\ known_bounds defs = false /\ known_multi_annot defs = false
+    (supported defs = true /\ known_bounds defs = false
      /\ known_multi_dim defs = false /\ known_split defs = true)
     /\ compile_defs defs = Ok items
     /\ keys_of (shape_of_items 0 items) <> keys_of (shape_of_defs [] defs)
@@ -200,7 +203,7 @@ Definition C41_example : list def :=
       DModule "inner" [DStruct [] "Leaf" None [mkMember [] (TName true ["m"; "Choice"]) (DSimple "pick") []]]]].
 
 Example C41_nonvacuous :
-  supported C41_example = true /\ known_bounds C41_example = false /\ known_multi_annot C41_example = false
+  supported C41_example = true /\ known_bounds C41_example = false
   /\ known_multi_dim C41_example = false /\ known_split C41_example = false
   /\ keys_of (shape_of_defs [] C41_example) = [("Reading", ["sensor"]); ("Leaf", [])]
   /\ ids_of (shape_of_defs [] C41_example)
@@ -229,7 +232,7 @@ Print Assumptions C41_optionals_preserved.
 Print Assumptions C41_extensibility_base_name_preserved.
 Print Assumptions C41_unions_aliases_consts_preserved.
 Print Assumptions C41_bounds_clause_refuted.
-Print Assumptions C41_keys_refuted_for_multi_declarator_member.
+Print Assumptions C41_annotations_reach_every_declarator.
 Print Assumptions C41_kinds_refuted_for_multi_dim_array.
 Print Assumptions C41_keys_and_names_refuted_for_split_attributes.
 Print Assumptions C41_preprocess_identity_without_directives.
